@@ -37,9 +37,9 @@ impl VMap {
     /// HashMap::new / Default: empty
     #[verifier::external_body]
     pub fn new() -> (r: VMap) ensures r@ == Map::<Seq<char>, u32>::empty() { unimplemented!() }
-    // plausible foreign calls: accepted, nothing promised
+    /// lookup by contents (ASSUMED, like `get`)
     #[verifier::external_body]
-    pub fn contains_key(&self, key: &str) -> bool { unimplemented!() }
+    pub fn contains_key(&self, key: &str) -> (r: bool) ensures r == self@.dom().contains(key@) { unimplemented!() }
     #[verifier::external_body]
     pub fn insert(&mut self, key: String, v: u32) -> Option<u32> { unimplemented!() }
     #[verifier::external_body]
@@ -247,6 +247,14 @@ impl IdMap {
     }
     pub open spec fn knows(&self, k: Seq<char>) -> bool { self.map@.dom().contains(k) }
 
+pub fn has_id(&self, key: &str) -> (r: bool)
+    ensures
+        
+        r == self.knows(key@),
+{
+        self.map.contains_key(key)
+    }
+
 pub fn get_id(&mut self, key: &str) -> (r: u32)
     requires
         
@@ -428,9 +436,16 @@ fn do_read_write_vals(chrom: String, chrom_sizes: &VMap, chrom_ids: &mut IdMap, 
         old(chrom_ids).next_id < u32::MAX,
     ensures
         
-        r is Err <==> !chrom_sizes@.dom().contains(chrom@),
+        r is Err <==> (!chrom_sizes@.dom().contains(chrom@) || old(chrom_ids).knows(chrom@)),
         
-        r matches Err(e) ==> e is InvalidChromosome,
+        old(chrom_ids).knows(chrom@) ==> r is Err,
+        
+        r matches Err(e) ==> (!chrom_sizes@.dom().contains(chrom@) ==> e is InvalidChromosome),
+        
+        r matches Err(e) ==> (chrom_sizes@.dom().contains(chrom@) ==> e is InvalidInput),
+        
+        r matches Ok(p) ==> !old(chrom_ids).knows(chrom@) && p.made_from().2 == old(chrom_ids).next_id
+            && p.made_from().2 as int == old(chrom_ids).order@.len() && final(chrom_ids).order@ == old(chrom_ids).order@.push(chrom@),
         
         r is Err ==> final(chrom_ids).map@ == old(chrom_ids).map@ && final(chrom_ids).order@ == old(chrom_ids).order@
             && final(chrom_ids).next_id == old(chrom_ids).next_id,
@@ -457,6 +472,10 @@ fn do_read_write_vals(chrom: String, chrom_sizes: &VMap, chrom_ids: &mut IdMap, 
                 return Err(ProcessDataError::InvalidChromosome(fmt_unknown_chrom(&chrom)));
             }
         };
+        // A chromosome's data must come in one run: sections and the index are laid out per run
+        if chrom_ids.has_id(&chrom) {
+            return Err(ProcessDataError::InvalidInput(fmt_unknown_chrom(&chrom)));
+        }
         // Make a new id for the chromosome
         let chrom_id = chrom_ids.get_id(&chrom);
 
@@ -482,9 +501,16 @@ fn do_read_write_vals_no_zoom(chrom: String, chrom_sizes: &VMap, chrom_ids: &mut
         old(chrom_ids).next_id < u32::MAX,
     ensures
         
-        r is Err <==> !chrom_sizes@.dom().contains(chrom@),
+        r is Err <==> (!chrom_sizes@.dom().contains(chrom@) || old(chrom_ids).knows(chrom@)),
         
-        r matches Err(e) ==> e is InvalidChromosome,
+        old(chrom_ids).knows(chrom@) ==> r is Err,
+        
+        r matches Err(e) ==> (!chrom_sizes@.dom().contains(chrom@) ==> e is InvalidChromosome),
+        
+        r matches Err(e) ==> (chrom_sizes@.dom().contains(chrom@) ==> e is InvalidInput),
+        
+        r matches Ok(p) ==> !old(chrom_ids).knows(chrom@) && p.made_from().1 == old(chrom_ids).next_id
+            && p.made_from().1 as int == old(chrom_ids).order@.len() && final(chrom_ids).order@ == old(chrom_ids).order@.push(chrom@),
         
         r is Err ==> final(chrom_ids).map@ == old(chrom_ids).map@ && final(chrom_ids).order@ == old(chrom_ids).order@
             && final(chrom_ids).next_id == old(chrom_ids).next_id,
@@ -509,6 +535,10 @@ fn do_read_write_vals_no_zoom(chrom: String, chrom_sizes: &VMap, chrom_ids: &mut
                 return Err(ProcessDataError::InvalidChromosome(fmt_unknown_chrom(&chrom)));
             }
         };
+        // A chromosome's data must come in one run: sections and the index are laid out per run
+        if chrom_ids.has_id(&chrom) {
+            return Err(ProcessDataError::InvalidInput(fmt_unknown_chrom(&chrom)));
+        }
         // Make a new id for the chromosome
         let chrom_id = chrom_ids.get_id(&chrom);
 
@@ -531,45 +561,8 @@ fn do_read_write_vals_no_zoom(chrom: String, chrom_sizes: &VMap, chrom_ids: &mut
 // the empty id map (`IdMap::default()`: derive(Default) = empty map, next_id 0 -- ASSUMED, modelled by the literal
 // below).  Nothing is re-implemented; Verus checks the loop against do_read's contract for all name sequences.
 // -------------------------------------------------------------------------------------
-/// the distinct members of s in order of first appearance
-pub open spec fn first_app(s: Seq<Seq<char>>) -> Seq<Seq<char>>
-    decreases s.len()
-{
-    if s.len() == 0 { Seq::empty() } else {
-        let p = first_app(s.drop_last());
-        if p.contains(s.last()) { p } else { p.push(s.last()) }
-    }
-}
 pub open spec fn names_of(v: Seq<String>) -> Seq<Seq<char>> { Seq::new(v.len(), |k: int| v[k]@) }
-/// first_app(s) has exactly the members of s, each once
-pub proof fn lemma_first_app(s: Seq<Seq<char>>)
-    ensures
-        forall|x: Seq<char>| #![trigger first_app(s).contains(x)] first_app(s).contains(x) <==> s.contains(x),
-        forall|a: int, b: int| 0 <= a < b < first_app(s).len() ==> first_app(s)[a] != first_app(s)[b],
-    decreases s.len()
-{
-    if s.len() > 0 {
-        let d = s.drop_last();
-        let p = first_app(d);
-        lemma_first_app(d);
-        assert forall|x: Seq<char>| #![trigger first_app(s).contains(x)] first_app(s).contains(x) <==> s.contains(x) by {
-            if s.contains(x) {
-                let j = choose|j: int| 0 <= j < s.len() && s[j] == x;
-                if j < s.len() - 1 { assert(d[j] == x); assert(d.contains(x)); assert(p.contains(x)); }
-                if !p.contains(s.last()) { assert(p.push(s.last())[p.len() as int] == s.last()); }
-                if p.contains(x) { let a = choose|a: int| 0 <= a < p.len() && p[a] == x; assert(p.push(s.last())[a] == x); }
-            }
-            if first_app(s).contains(x) {
-                let a = choose|a: int| 0 <= a < first_app(s).len() && first_app(s)[a] == x;
-                if a < p.len() { assert(p[a] == x); assert(p.contains(x)); assert(d.contains(x)); let j = choose|j: int| 0 <= j < d.len() && d[j] == x; assert(s[j] == x); }
-                else { assert(x == s.last()); assert(s[s.len() - 1] == x); }
-            }
-        }
-        assert forall|a: int, b: int| 0 <= a < b < first_app(s).len() implies first_app(s)[a] != first_app(s)[b] by {
-            if b == p.len() { assert(p[a] == first_app(s)[a]); assert(p.contains(p[a])); }
-        }
-    }
-}
+pub open spec fn appears_before(names: Seq<String>, k: int) -> bool { exists|j: int| 0 <= j < k && names[j]@ == names[k]@ }
 fn driver_chromosome_table(names: &Vec<String>, chrom_sizes: &VMap, send: &mut ChromTx<Data>, options: &BBIWriteOptions, runtime: &Runtime, zoom_sizes: &Vec<u32>)
     -> (r: (IdMap, usize, Ghost<Seq<u32>>))
     requires
@@ -578,13 +571,16 @@ fn driver_chromosome_table(names: &Vec<String>, chrom_sizes: &VMap, send: &mut C
         
         r.1 <= names@.len(),
         forall|k: int| 0 <= k < r.1 ==> chrom_sizes@.dom().contains(#[trigger] names@[k]@),
-        r.1 < names@.len() ==> !chrom_sizes@.dom().contains(names@[r.1 as int]@),
+        r.1 < names@.len() ==> (!chrom_sizes@.dom().contains(names@[r.1 as int]@) || appears_before(names@, r.1 as int)),
         
         r.0.wf(),
-        r.0.order@ == first_app(names_of(names@.subrange(0, r.1 as int))),
+        r.0.order@ == names_of(names@.subrange(0, r.1 as int)),
+        
+        r.0.order@.len() == r.1 && r.0.next_id == r.1,
+        forall|a: int, b: int| 0 <= a < b < r.1 ==> names@[a]@ != names@[b]@,
         
         r.2@.len() == r.1,
-        forall|k: int| 0 <= k < r.1 ==> 0 <= (#[trigger] r.2@[k]) < r.0.order@.len() && r.0.order@[r.2@[k] as int] == names@[k]@,
+        forall|k: int| 0 <= k < r.1 ==> (#[trigger] r.2@[k]) as int == k && r.0.order@[k] == names@[k]@,
         
         final(send).sent().len() == old(send).sent().len() + r.1,
 {
@@ -596,11 +592,11 @@ fn driver_chromosome_table(names: &Vec<String>, chrom_sizes: &VMap, send: &mut C
     while k < names.len()
         invariant
             k <= names@.len(), names@.len() < u32::MAX,
-            ids.wf(), ids.next_id <= k,
+            ids.wf(), ids.next_id == k,
             forall|j: int| 0 <= j < k ==> chrom_sizes@.dom().contains(#[trigger] names@[j]@),
-            ids.order@ == first_app(names_of(names@.subrange(0, k as int))),
+            ids.order@ == names_of(names@.subrange(0, k as int)),
             given.len() == k,
-            forall|j: int| 0 <= j < k ==> 0 <= (#[trigger] given[j]) < ids.order@.len() && ids.order@[given[j] as int] == names@[j]@,
+            forall|j: int| 0 <= j < k ==> (#[trigger] given[j]) as int == j,
             send.sent().len() == sent0.len() + k, sent0 == old(send).sent(),
         decreases
             
@@ -609,29 +605,47 @@ fn driver_chromosome_table(names: &Vec<String>, chrom_sizes: &VMap, send: &mut C
         let ghost before = ids;
         let name = names[k].as_str().to_string();
         let res = do_read_write_vals(name, chrom_sizes, &mut ids, send, options, runtime, zoom_sizes);
-        proof {
-            let pre = names_of(names@.subrange(0, k as int));
-            let nxt = names_of(names@.subrange(0, k as int + 1));
-            assert(nxt.drop_last() =~= pre);
-            assert(nxt.last() == names@[k as int]@);
-        }
         match res {
-            Err(_) => { return (ids, k, Ghost(given)); }
+            Err(_) => {
+                proof {
+                    if before.knows(names@[k as int]@) {
+                        assert(before.order@.contains(names@[k as int]@));
+                        let j = choose|j: int| 0 <= j < before.order@.len() && before.order@[j] == names@[k as int]@;
+                        assert(names@[j]@ == names@[k as int]@);
+                    }
+                    lemma_order_distinct(ids);
+                    assert forall|a: int, b: int| 0 <= a < b < k implies names@[a]@ != names@[b]@ by {
+                        assert(ids.order@[a] == names@.subrange(0, k as int)[a]@ && ids.order@[b] == names@.subrange(0, k as int)[b]@);
+                    }
+                }
+                return (ids, k, Ghost(given));
+            }
             Ok(p) => {
                 proof {
-                    let id = p.made_from().2;
-                    assert(before.knows(names@[k as int]@) <==> before.order@.contains(names@[k as int]@));
-                    assert forall|j: int| 0 <= j < k implies 0 <= (#[trigger] given[j]) < ids.order@.len() && ids.order@[given[j] as int] == names@[j]@ by {
-                        assert(before.order@[given[j] as int] == ids.order@[given[j] as int]);
-                    }
-                    given = given.push(id);
+                    assert(ids.order@ =~= names_of(names@.subrange(0, k as int + 1)));
+                    given = given.push(p.made_from().2);
                 }
             }
         }
         k = k + 1;
     }
-    proof { assert(names@.subrange(0, k as int) =~= names@); }
+    proof {
+        lemma_order_distinct(ids);
+        assert forall|a: int, b: int| 0 <= a < b < k implies names@[a]@ != names@[b]@ by {
+            assert(ids.order@[a] == names@.subrange(0, k as int)[a]@ && ids.order@[b] == names@.subrange(0, k as int)[b]@);
+        }
+    }
     (ids, k, Ghost(given))
+}
+/// a well-formed id map lists every name once
+pub proof fn lemma_order_distinct(m: IdMap)
+    requires m.wf(),
+    ensures forall|a: int, b: int| 0 <= a < b < m.order@.len() ==> m.order@[a] != m.order@[b],
+{
+    assert forall|a: int, b: int| 0 <= a < b < m.order@.len() implies m.order@[a] != m.order@[b] by {
+        assert(m.map@[m.order@[a]] as int == a);
+        assert(m.map@[m.order@[b]] as int == b);
+    }
 }
 
 // Second pass (write_zoom_vals): the id is LOOKED UP in the map the first pass produced, never created.
